@@ -35,6 +35,10 @@ TU = r"""
 #include <sbepp/sbepp.hpp>
 namespace srcexprs {
 struct entry { entry(char*, char*, std::size_t) {} entry(char*, std::nullptr_t, std::size_t) {} };
+template<typename S> bool srcexprs_seteq(const S& a, const S& b)
+{
+    return (a == b) | (a != b);
+}
 template<typename It> bool srcexprs_cmp(const It& a, const It& b)
 {
     return (a == b) | (a != b) | (a < b) | (a <= b) | (a > b) | (a >= b);
@@ -74,6 +78,8 @@ def _tu_text():
     lines = []
     for t in UNS:
         lines.append("template class sbepp::detail::bitset_base<%s>;" % STD[t])
+        lines.append("template bool srcexprs::srcexprs_seteq(const sbepp::detail::bitset_base<%s>&, "
+                     "const sbepp::detail::bitset_base<%s>&);" % (STD[t], STD[t]))
     for s in UNS:
         for b in UNS:
             it = "sbepp::detail::random_access_iterator<char, srcexprs::entry, %s, %s, %s>" % (STD[b], STD[SGN[s]], STD[s])
@@ -488,6 +494,23 @@ def translate(repo):
                 got["set"] = m
         if set(got) != {"get", "set"}:
             continue
+        decls, fr = {}, {}
+        for c in s.get("inner", []):
+            if c.get("kind") == "CXXMethodDecl" and c.get("id"):
+                decls[c["id"]] = c
+            if c.get("kind") == "FriendDecl":
+                for f in c.get("inner", []):
+                    if f.get("kind") == "FunctionDecl" and f.get("name") in ("operator==", "operator!=") and \
+                            any(x.get("kind") == "CompoundStmt" for x in f.get("inner", [])):
+                        fr[f["name"]] = f
+        if set(fr) != {"operator==", "operator!="}:
+            continue
+        CTX.update({"this": "", "obj": {}, "subst": {}, "decls": decls, "depth": 0})
+        try:
+            defs.append(("src_set_eq_" + ta[0], effects(fr["operator=="])))
+            defs.append(("src_set_ne_" + ta[0], effects(fr["operator!="])))
+        finally:
+            CTX.update({"this": "", "obj": {}, "subst": {}, "decls": {}, "depth": 0})
         seen.add(ta[0])
         defs.append(("src_get_bit_" + ta[0], effects(got["get"])))
         defs.append(("src_set_bit_" + ta[0], effects(got["set"])))
